@@ -252,4 +252,73 @@ pub fn column_spill(base: usize, span: usize, idx: usize, as_float: bool) {
     std::mem::forget((col, got, keep));
 }
 
+/// ColumnStore level: two keys, two rows, then one operation; reads and key listings must agree with the map
+/// model (op: 0 remove_property(1,"a")  1 clear_row(1)  2 overwrite (1,"a")  3 new key "c" on row 1 with a
+/// Boolean  4 remove_property of a key that was never set).
+pub fn store_step(op: u8) {
+    let mut st = ColumnStore::new();
+    let (va, vb, wa): (i64, i64, i64) = (kani::any(), kani::any(), kani::any());
+    st.set_property(1, "a", PropertyValue::Integer(va));
+    st.set_property(1, "b", PropertyValue::Integer(vb));
+    st.set_property(2, "a", PropertyValue::Integer(wa));
+    let mut a1 = Some(va);
+    let mut b1 = Some(vb);
+    let mut c1: Option<bool> = None;
+    match op {
+        0 => {
+            st.remove_property(1, "a");
+            a1 = None;
+        }
+        1 => {
+            st.clear_row(1);
+            a1 = None;
+            b1 = None;
+        }
+        2 => {
+            let n: i64 = kani::any();
+            st.set_property(1, "a", PropertyValue::Integer(n));
+            a1 = Some(n);
+        }
+        3 => {
+            let n: bool = kani::any();
+            st.set_property(1, "c", PropertyValue::Boolean(n));
+            c1 = Some(n);
+        }
+        _ => st.remove_property(1, "zz"),
+    }
+    let ok = |got: PropertyValue, want: Option<i64>| match (got, want) {
+        (PropertyValue::Integer(x), Some(y)) => x == y,
+        (PropertyValue::Null, None) => true,
+        _ => false,
+    };
+    assert!(ok(st.get_property(1, "a"), a1), "C30 store: row 1 key a");
+    assert!(ok(st.get_property(1, "b"), b1), "C30 store: row 1 key b");
+    assert!(ok(st.get_property(2, "a"), Some(wa)), "C30 store: another row was changed");
+    assert!(ok(st.get_property(2, "b"), None), "C30 store: a value appeared on another row");
+    match (st.get_property(1, "c"), c1) {
+        (PropertyValue::Boolean(x), Some(y)) => assert!(x == y, "C30 store: row 1 key c"),
+        (PropertyValue::Null, None) => {}
+        _ => assert!(false, "C30 store: row 1 key c"),
+    }
+    let k1 = st.get_property_keys(1);
+    let want1 = a1.is_some() as usize + b1.is_some() as usize + c1.is_some() as usize;
+    assert!(k1.len() == want1, "C30 store: keys of row 1 are exactly the keys that hold a value");
+    let has = |ks: &Vec<String>, k: &str| {
+        let mut f = false;
+        let mut i = 0;
+        while i < ks.len() {
+            if ks[i] == k {
+                f = true;
+            }
+            i += 1;
+        }
+        f
+    };
+    assert!(has(&k1, "a") == a1.is_some() && has(&k1, "b") == b1.is_some() && has(&k1, "c") == c1.is_some(), "C30 store: key listing of row 1");
+    let k2 = st.get_property_keys(2);
+    assert!(k2.len() == 1 && has(&k2, "a"), "C30 store: key listing of another row");
+    vk_cover!(true, "reach");
+    std::mem::forget((st, k1, k2));
+}
+
 include!(concat!(env!("VK_GEN_DIR"), "/c30_gen.rs"));
